@@ -12,12 +12,21 @@
 #include <ArduinoJson/Strings/StringAdapters.hpp>
 #include <ArduinoJson/Variant/VariantData.hpp>
 
+#ifdef BBLANCHON_ARDUINOJSON_VERIF
+namespace verif {
+struct Inspector;
+}
+#endif
+
 ARDUINOJSON_BEGIN_PRIVATE_NAMESPACE
 
 class VariantData;
 class VariantWithId;
 
 class ResourceManager {
+#ifdef BBLANCHON_ARDUINOJSON_VERIF
+  friend struct ::verif::Inspector;
+#endif
   union SlotData {
     VariantData variant;
 #if ARDUINOJSON_USE_EXTENSIONS
